@@ -244,28 +244,41 @@ AtomPool == <<Nil, Bool(FALSE), Bool(TRUE)>>
             \o StrPool
             \o <<Fn("f1"), Fn("f2"), Ns("n1"), Ns("n2")>>
 
+(* TLC pre-evaluates and caches a constant definition only if it can establish its level; that fails
+   (silently: the definition is then re-evaluated at every use, 1000x slower) when a defined
+   constant occurs inside TWO nested applications of user operators, e.g. List(<<Num(NaNAtom)>>).
+   Hence: nested terms are built from named sub-terms, one constructor application per definition. *)
 sa == S(<<97>>)   sb == S(<<98>>)   sx == S(<<120>>)   sy == S(<<121>>)
+nanv == [t |-> "num", v |-> NaNAtom]
+l0   == List(<<>>)
+l1   == List(<<NA("i:1")>>)
+lz   == List(<<NA("f:0.0")>>)
+lnz  == List(<<NA("f:-0.0")>>)
+m0   == Map(<<>>)
+ma1  == Map(<< <<sa, NA("i:1")>> >>)
+mbz  == Map(<< <<sb, NA("f:0.0")>> >>)
+mbnz == Map(<< <<sb, NA("f:-0.0")>> >>)
 ListPool == <<
-  List(<<>>), List(<<NA("i:1")>>), List(<<NA("f:1.0")>>), List(<<NA("i:2")>>),
+  l0, l1, List(<<NA("f:1.0")>>), List(<<NA("i:2")>>),
   List(<<NA("i:1"), NA("i:2")>>), List(<<NA("i:1"), NA("i:2"), NA("i:3")>>),
   List(<<sa>>), List(<<sa, NA("i:1")>>), List(<<NA("i:1"), sa>>), List(<<sb>>),
-  List(<<Num(NaNAtom)>>), List(<<NA("f:0.0")>>), List(<<NA("f:-0.0")>>), List(<<NA("i:0")>>),
-  List(<<List(<<>>)>>), List(<<List(<<NA("i:1")>>)>>), List(<<List(<<NA("i:1")>>), NA("i:2")>>),
-  List(<<List(<<NA("f:-0.0")>>)>>), List(<<List(<<NA("f:0.0")>>)>>),
+  List(<<nanv>>), lz, lnz, List(<<NA("i:0")>>),
+  List(<<l0>>), List(<<l1>>), List(<<l1, NA("i:2")>>),
+  List(<<lnz>>), List(<<lz>>),
   List(<<Nil>>), List(<<Bool(TRUE)>>), List(<<Bool(FALSE)>>),
   List(<<NA("i:9007199254740993")>>), List(<<NA("f:9007199254740992.0")>>),
-  List(<<Map(<<>>)>>), List(<<Map(<< <<sa, NA("i:1")>> >>)>>), List(<<Fn("f1")>>),
-  List(<<NA("i:1"), Num(NaNAtom)>>) >>
+  List(<<m0>>), List(<<ma1>>), List(<<Fn("f1")>>),
+  List(<<NA("i:1"), nanv>>) >>
 
 MapPool == <<
-  Map(<<>>),
-  Map(<< <<sa, NA("i:1")>> >>), Map(<< <<sa, NA("f:1.0")>> >>),
+  m0,
+  ma1, Map(<< <<sa, NA("f:1.0")>> >>),
   Map(<< <<sa, NA("f:0.0")>> >>), Map(<< <<sa, NA("f:-0.0")>> >>),
   Map(<< <<sa, NA("i:1")>>, <<sb, NA("i:2")>> >>), Map(<< <<sb, NA("i:2")>>, <<sa, NA("i:1")>> >>),
   Map(<< <<NA("i:0"), sx>>, <<NA("f:0.0"), sy>> >>), Map(<< <<NA("f:-0.0"), sy>>, <<NA("i:0"), sx>> >>),
-  Map(<< <<sa, Num(NaNAtom)>> >>),
-  Map(<< <<sa, List(<<NA("i:1")>>)>> >>), Map(<< <<List(<<NA("i:1")>>), sa>> >>),
-  Map(<< <<sa, Map(<< <<sb, NA("f:0.0")>> >>)>> >>), Map(<< <<sa, Map(<< <<sb, NA("f:-0.0")>> >>)>> >>) >>
+  Map(<< <<sa, nanv>> >>),
+  Map(<< <<sa, l1>> >>), Map(<< <<l1, sa>> >>),
+  Map(<< <<sa, mbz>> >>), Map(<< <<sa, mbnz>> >>) >>
 
 Pool == AtomPool \o ListPool \o MapPool
 
